@@ -80,7 +80,8 @@ def items(tier, seed):
     for it in build.enum_mdps(2, [('a', 'b')], 1, [F(-1), F(0), F(1)], [()], [build.INIT_MENU[2][2], build.INIT_MENU[2][0]], [F(9, 10)]):
         j += 1
         if tier == 'thorough' or j % 4 == seed % 4:
-            yield ('wrapper', it, j % 4, (j // 4) % 3, 0, 0)
+            k = j // 4
+            yield ('wrapper', it, k % 4, (k // 4) % 3, 0, 0)      # entropy weight and prior kind rotate independently
 
 
 def lse_weighted(xs, ps):
